@@ -5,7 +5,7 @@
   per-part "head consumes exactly the rendered text" lemmas; well-formedness (`Pat.wf`) and the
   version-record domain predicate (`Pat.vok`).
 -/
-import BumpverVerif.Model.PatAst
+import BumpverVerif.Model.PatWf
 import BumpverVerif.Proofs.PartLemmas
 namespace BV
 
@@ -326,8 +326,6 @@ theorem headConsumes_of_digitOnly (rx : Re) (hd : rx.digitOnly = true) (t : Str)
 
 def NoDigitAhead (k : Str) : Prop := ∀ c, k.head? = some c → isDigit c = false
 
-def isTagPart (n : Str) : Bool := n == "TAG".toList || n == "PYTAG".toList
-
 /-- the first rendered character of a part: a lower-case letter for the tags, a digit otherwise -/
 def FirstOk (n t : Str) : Prop :=
   ∀ c, t.head? = some c → (if isTagPart n = true then isLower c else isDigit c) = true
@@ -353,11 +351,6 @@ theorem firstOk_digits (n t : Str) (htag : isTagPart n = false) (hd : allDigits 
 
 theorem allDigits_fmtValue (kd : Gen.FmtKind) (x : Nat) : allDigits (fmtValue kd (.nat x)) = true := by
   cases kd <;> simp only [fmtValue, allDigits_natToStr, allDigits_zfill]
-
-def optIn (o : Option Nat) (lo hi : Nat) : Bool :=
-  match o with
-  | some x => decide (lo ≤ x) && decide (x ≤ hi)
-  | none => false
 
 /-- kernel check of one finite calendar part over its whole domain `lo..hi`: the regex is
     digit-only, and every rendered value is non-empty and consumed in full by the FIRST success -/
@@ -691,57 +684,6 @@ theorem year_part (n f : Str) (get : CalOpt → Option Nat) (hf : lookup n Gen.p
         exact this
 
 /-! ### the domain table and the dispatcher -/
-
-def tagOk (v : VInfo) : Bool := Gen.validReleaseTagValues.contains v.tag
-
-/-- PYTAG is rendered: the tag is a CLI release tag other than `final`, and `pytag` is its
-    image under `PEP440_TAG_BY_TAG` -/
-def pytagOk (v : VInfo) : Bool :=
-  tagOk v && (lookup v.tag Gen.pep440TagByTag == some v.pytag) && !v.pytag.isEmpty
-
-/-- the domain of every supported part (GITHASH / HEXHASH are absent: outside the language) -/
-def partDoms : List (Str × (VInfo → Bool)) := [
-  ("YYYY".toList, fun v => optIn v.cal.yearY 1000 9999),
-  ("YY".toList, fun v => optIn v.cal.yearY 2001 2099),
-  ("0Y".toList, fun v => optIn v.cal.yearY 2000 2099),
-  ("GGGG".toList, fun v => optIn v.cal.yearG 1000 9999),
-  ("GG".toList, fun v => optIn v.cal.yearG 2001 2099),
-  ("0G".toList, fun v => optIn v.cal.yearG 2000 2099),
-  ("Q".toList, fun v => optIn v.cal.quarter 1 4),
-  ("MM".toList, fun v => optIn v.cal.month 1 12),
-  ("0M".toList, fun v => optIn v.cal.month 1 12),
-  ("DD".toList, fun v => optIn v.cal.dom 1 31),
-  ("0D".toList, fun v => optIn v.cal.dom 1 31),
-  ("JJJ".toList, fun v => optIn v.cal.doy 1 366),
-  ("00J".toList, fun v => optIn v.cal.doy 1 366),
-  ("WW".toList, fun v => optIn v.cal.weekW 0 52),
-  ("0W".toList, fun v => optIn v.cal.weekW 0 52),
-  ("UU".toList, fun v => optIn v.cal.weekU 0 52),
-  ("0U".toList, fun v => optIn v.cal.weekU 0 52),
-  ("VV".toList, fun v => optIn v.cal.weekV 1 53),
-  ("0V".toList, fun v => optIn v.cal.weekV 1 53),
-  ("MAJOR".toList, fun _ => true),
-  ("MINOR".toList, fun _ => true),
-  ("PATCH".toList, fun _ => true),
-  ("NUM".toList, fun _ => true),
-  ("INC0".toList, fun _ => true),
-  ("INC1".toList, fun v => decide (1 ≤ v.inc1)),
-  ("BUILD".toList, fun v => isDigitStr v.bid),
-  ("BLD".toList, fun v => isDigitStr v.bid && decide (1 ≤ strToNat v.bid)),
-  ("TAG".toList, tagOk),
-  ("PYTAG".toList, pytagOk)]
-
-/-- the field of part `n` lies in the domain on which recogniser and renderer agree -/
-def partOk (v : VInfo) (n : Str) : Bool :=
-  match lookup n partDoms with
-  | some d => d v
-  | none => false
-
-/-- parts whose recogniser is variable-width or (for simplicity) any calendar alternation: the
-    next rendered character must not be a digit.  YYYY / GGGG (fixed four digits) and the tags
-    (no alternative is a prefix of another) need no such condition. -/
-def needND (n : Str) : Bool :=
-  !(["YYYY".toList, "GGGG".toList, "TAG".toList, "PYTAG".toList].contains n)
 
 def tagWords : List Str := ["preview", "final", "dev", "alpha", "beta", "post", "rc"].map String.toList
 def pytagWords : List Str := ["dev", "post", "rc", "a", "b"].map String.toList
